@@ -17,7 +17,7 @@ use sha1::Digest;
 const MT_SLOT: u64 = 0x10_0000;
 /// an advertised size that can be allocated virtually but never physically (only safe to
 /// generate once the implementation no longer allocates the advertised size up front)
-const ABSURD_MID: u64 = 1 << 63;
+const ABSURD_MID: u64 = 1 << 40;
 
 /// lowercase hex, `-` for empty (same format as `camharness::hex`, without per-byte formatting)
 fn hex(b: &[u8]) -> String {
@@ -177,6 +177,10 @@ fn decode_manifest(case: &Case) -> Result<Vec<Entry>, ()> {
         return Err(());
     }
     let mut out = vec![];
+    // the whole table must lie inside the 64 bit address space
+    if case.mt_addr as u128 + 8 + 64 * count as u128 > 1u128 << 64 {
+        return Err(());
+    }
     for i in 0..count {
         let a = case.mt_addr + 8 + 64 * i;
         let b = case.peek(a, 8).ok_or(())?;
@@ -202,10 +206,12 @@ fn decode_manifest(case: &Case) -> Result<Vec<Entry>, ()> {
 
 /// What the property demands on a fault-free run: `Ok(text)` or "must fail".
 /// The reason string classifies the failure for the input distribution.
-fn expected(case: &Case) -> Result<Vec<u8>, &'static str> {
+/// `tolerant`: entries with a reserved file type are skipped instead of failing the retrieval
+/// (the property text does not decide this; the implementation fails, see `props/C14.json`).
+fn expected(case: &Case, tolerant: bool) -> Result<Vec<u8>, &'static str> {
     let entries = decode_manifest(case).map_err(|_| "malformed-table")?;
     // an entry with a reserved file type makes the device non conforming
-    if entries.iter().any(|e| e.file_type > 1) {
+    if !tolerant && entries.iter().any(|e| e.file_type > 1) {
         return Err("reserved-file-type");
     }
     let mut best: Option<&Entry> = None;
@@ -349,7 +355,33 @@ fn run_impl(case: &Case) -> Result<(String, Vec<OpObs>), String> {
 fn run_case(rep: &mut Report, case: &Case, src: &str) -> usize {
     rep.count(&format!("src/{src}"));
     let req = request(case);
-    let exp = expected(case);
+    let exp = expected(case, false);
+    let exp_tolerant = expected(case, true);
+    // boundary classes of the address arithmetic (for the input distribution)
+    if let Some(c) = case.peek(case.mt_addr, 8) {
+        let count = u64::from_le_bytes(c.try_into().unwrap());
+        let end = case.mt_addr as u128 + 8 + 64 * count as u128;
+        if case.mt_addr > 1 << 63 {
+            rep.count(if end == 1 << 64 { "table:ends-at-2^64" } else if end > 1 << 64 { "table:top,exceeds-address-space" } else { "table:top" });
+        } else if end > 1 << 64 {
+            rep.count("table:count-exceeds-address-space");
+        } else if count > 4096 {
+            rep.count("table:huge-addressable-count");
+        }
+        for i in 0..count.min(16) {
+            if let Some(l) = case.peek(case.mt_addr.wrapping_add(8 + 64 * i + 8), 16) {
+                let a = u64::from_le_bytes(l[0..8].try_into().unwrap());
+                let n = u64::from_le_bytes(l[8..16].try_into().unwrap());
+                if n >= 1 << 40 {
+                    rep.count("file:absurd-advertised-size");
+                } else if a as u128 + n as u128 > 1 << 64 {
+                    rep.count("file:range-exceeds-address-space");
+                } else if n > 0 && a as u128 + n as u128 == 1 << 64 {
+                    rep.count("file:ends-at-2^64");
+                }
+            }
+        }
+    }
     rep.count(&match &exp {
         Ok(_) => "expect:ok".to_string(),
         Err(why) => format!("expect:fail:{why}"),
@@ -390,6 +422,10 @@ fn run_case(rep: &mut Report, case: &Case, src: &str) -> usize {
                                 &format!("returned text ({} bytes) differs from the stored file of the newest device XML entry ({} bytes)", text.len(), want.len()),
                                 case.to_json());
                         }
+                    }
+                    (Ok(Ok(text)), Err("reserved-file-type")) if exp_tolerant.as_ref().ok() == Some(text) => {
+                        // a tolerant implementation (skipping unknown file types) is acceptable
+                        rep.count("reserved-file-type:skipped-by-implementation");
                     }
                     (Ok(Ok(text)), Err(why)) => {
                         rep.violation(json!({"check": "must_fail", "input": why}),
@@ -581,23 +617,67 @@ fn gen_case(rng: &mut Rng, thorough: bool) -> Case {
         });
     }
     // the table
-    let mt_addr = MT_SLOT + 8 * rng.below(32);
+    let mut mt_addr = MT_SLOT + 8 * rng.below(32);
     let mut count = n_entries as u64;
     let mut table = vec![];
     for s in &specs {
         table.extend_from_slice(&entry_bytes(s));
     }
-    match rng.below(30) {
+    match rng.below(36) {
         0 => count += 1 + rng.below(3), // advertised count exceeds the mapped table
         1 if !table.is_empty() => {
             let cut = rng.below(table.len() as u64) as usize;
             table.truncate(cut); // truncated table
         }
         2 if count > 0 => count -= 1, // last entry hidden
+        // counts at / beyond what the address space can hold (the table is mapped for the real
+        // entries only): the largest addressable count, one more, 2^58, u64::MAX
+        3 => count = (u64::MAX - 7 - mt_addr) / 64 + rng.below(2),
+        4 => count = *rng.pick(&[1u64 << 58, (1u64 << 58) - 1, u64::MAX, u64::MAX / 64, 1u64 << 63]),
         _ => {}
     }
     let mut mt = count.to_le_bytes().to_vec();
     mt.extend_from_slice(&table);
+    // tables at the very top of the address space
+    let top_used = match rng.below(14) {
+        0 => {
+            // ends exactly at 2^64 (allowed when the advertised count matches)
+            mt_addr = (u64::MAX - mt.len() as u64).wrapping_add(1);
+            true
+        }
+        1 if mt.len() >= 72 => {
+            // the last advertised entry does not fit into the address space
+            mt.truncate(mt.len() - 64);
+            mt_addr = (u64::MAX - mt.len() as u64).wrapping_add(1);
+            true
+        }
+        2 => {
+            // only the count fits
+            mt.truncate(8);
+            mt_addr = u64::MAX - 7;
+            true
+        }
+        _ => false,
+    };
+    if !top_used && regions.iter().all(|r| r.base < 0xffff_0000_0000_0000) {
+        // a file region that ends exactly at 2^64; advertised size exact or one byte more
+        if let Some(i) = (0..specs.len()).find(|i| specs[*i].size > 0 && specs[*i].size < 60_000 && rng.chance(1, 10)) {
+            if let Some(pos) = regions.iter().position(|r| r.base == specs[i].addr) {
+                let len = regions[pos].data.len() as u64;
+                let base = (u64::MAX - len).wrapping_add(1);
+                regions[pos].base = base;
+                let new_size = if rng.bool() { specs[i].size } else { len + 1 + rng.below(3) };
+                let mut e = EntrySpec { version: specs[i].version, info: specs[i].info, addr: base, size: new_size, hash: specs[i].hash };
+                if rng.chance(1, 4) {
+                    e.addr = u64::MAX - rng.below(4); // starts in the last bytes of the address space
+                }
+                let off = 8 + 64 * i;
+                if mt.len() >= off + 64 && mt_addr < 0x8000_0000 {
+                    mt[off..off + 64].copy_from_slice(&entry_bytes(&e));
+                }
+            }
+        }
+    }
     if rng.chance(1, 60) {
         mt.truncate(rng.below(8) as usize); // even the count is not readable
     }
@@ -660,7 +740,7 @@ fn main() {
     for i in 0..rounds {
         let c = gen_case(&mut rng, args.thorough());
         let n = run_case(&mut rep, &c, "random");
-        let every = if args.thorough() { 10 } else { 20 };
+        let every = if args.thorough() { 6 } else { 8 };
         let total: usize = c.regions.iter().map(|r| r.data.len()).sum();
         if i % every == 0 && total < 12_000 {
             // failure of each command (all of them when few, a sample otherwise), then a retry
